@@ -24,6 +24,7 @@ struct Mon<'a> {
   io_bytes_by_invariance: u64,
   timer_overflows: u64,
   other_device_configs: u64,
+  frame_sets: u64,
 }
 
 impl<'a> Mon<'a> {
@@ -181,7 +182,7 @@ pub fn run(ctx: &mut Ctx) {
     }
   }
   support::stamp_header(&mut image, 0x03, 0x02, 0x03);
-  let mut m = Mon { ctx, evaluations: 0, bytes_copied: 0, batches: 0, restarts: 0, source_edits: 0, io_bytes_by_invariance: 0, timer_overflows: 0, other_device_configs: 0 };
+  let mut m = Mon { ctx, evaluations: 0, bytes_copied: 0, batches: 0, restarts: 0, source_edits: 0, io_bytes_by_invariance: 0, timer_overflows: 0, other_device_configs: 0, frame_sets: 0 };
   for page in 0..=255u16 {
     let page = page as u8;
     if !m.ctx.mine(page as u64) {
@@ -278,6 +279,62 @@ pub fn run(ctx: &mut Ctx) {
     }
     }
     core = fresh(&image, default_cfg);
+    // what the LCD controller draws while a transfer replaces the objects under it is part of
+    // the transfer's result too: display and objects on, a transfer started somewhere in the
+    // frame, the same one and a half frame periods (26 334 machine cycles: the lines drawn during the
+    // transfer are then still in one of the two frame buffers) delivered in different partitions - both frame
+    // buffers must come out the same
+    if (0xc0..0xe0).contains(&page) && page % 2 == 1 {
+      let mut digests: Vec<(u64, String)> = Vec::new();
+      for pi in 0..6u32 {
+        let mut c = fresh(&image, 3);
+        let mp = &mut c.memory as *mut MemoryAreas;
+        memory_write_byte(mp, 0xff40, 0x93);
+        memory_write_byte(mp, 0xff47, 0xe4);
+        memory_write_byte(mp, 0xff48, 0xe4);
+        memory_write_byte(mp, 0xff49, 0x1b);
+        // objects spread over the screen: y = 16 + 3k, x = 8 + 4k, tile k, attributes from the page number
+        for k in 0..40usize {
+          let a = ((page as usize) << 8 | k * 4) & 0x1fff;
+          c.memory.work_ram[a] = 16 + 3 * k as u8;
+          c.memory.work_ram[a + 1] = 8 + 4 * k as u8;
+          c.memory.work_ram[a + 2] = k as u8 ^ page;
+          c.memory.work_ram[a + 3] = (page << 3) & 0xf0;
+        }
+        memory_write_byte(mp, 0xff46, page);
+        let head: Vec<u32> = match pi {
+          0 => vec![1; 256],
+          1 => vec![256],
+          2 => vec![160, 96],
+          3 => vec![100, 60, 96],
+          4 => vec![7; 36].into_iter().chain(vec![4]).collect(),
+          _ => vec![200, 56],
+        };
+        let mut total = 0u32;
+        for n in head.iter() {
+          c.memory.run_clock_cycles(ClockCycles(4 * *n as usize));
+          total += *n;
+        }
+        while total < 26_334 {
+          let n = (26_334 - total).min(1000);
+          c.memory.run_clock_cycles(ClockCycles(4 * n as usize));
+          total += n;
+        }
+        m.evaluations += 1;
+        let d = hash_words(&[crate::rt::hash_bytes(c.memory.io.video.get_visible_buffer()), crate::rt::hash_bytes(c.memory.io.video.get_writing_buffer())]);
+        digests.push((d, format!("{:?}", &head[..head.len().min(4)])));
+      }
+      m.frame_sets += 1;
+      for k in 1..digests.len() {
+        if digests[k].0 != digests[0].0 {
+          m.ctx.violation(
+            "C16:depends-on-batching:frame-drawn-during-the-transfer",
+            &format!("page {:02X}, display and objects on: the frames drawn while the transfer ran differ between the partition beginning {} and the one beginning {} (same total time)", page, digests[k].1, digests[0].1),
+          );
+          break;
+        }
+      }
+    }
     // source edits between batches, restarts at every progress
     for pi in 0..(if thorough { 30 } else { 8 }) {
       let mut plan: Vec<u32> = Vec::new();
@@ -318,6 +375,7 @@ pub fn run(ctx: &mut Ctx) {
   m.ctx.count("io-page-source-bytes-decided-by-partition-invariance", m.io_bytes_by_invariance);
   m.ctx.count("batches-with-a-timer-overflow", m.timer_overflows);
   m.ctx.count("partition-sets-under-other-device-configurations", m.other_device_configs);
+  m.ctx.count("frame-partition-sets-with-a-transfer-under-the-lcd", m.frame_sets);
 }
 
 pub fn on_crash(intent: &[u64], text: &str, status: &str, _err: &str) -> Option<(String, String)> {
